@@ -11,6 +11,7 @@ import BSModel.Gen.Entities
     c05 rspec  <flavour> <fmt> <tbl> <tree>   the same through `renderSpec`/`renderL`
     c05 trip   <flavour> <fmt> <tree>         the root's children as a forest:
                                               repr=<0|1> # emit=<events> # norm=<forest> # build=<forest> # norm2=<forest> # repr2=<0|1> # dst=<0|1 DoctypeStable> # grow=<n: characters the text gains on the second trip>
+    c05 tripc  <void> <flavour> <fmt> <tree>  the same under a builder with `empty_element_tags` = D (default) | N (None) | - (empty set) | name;name
     c05 top <rootAttr> <chain> <arg> <tbl> <tree>   `decode(formatter=arg)` incl. `formatter_for_name`/`_is_xml`:  D:<cps> | KeyError
     c05 sor <rootAttr> <chain> <arg|None> <tbl> <pname|N> <cls> <cps>   `string.output_ready(arg)`:  D:<cps> | KeyError
     c05 doctype <name|N> <pub|N> <sys|N>      `Doctype._string_for_name_and_ids` (tokens: N = None, e = "", else cps)
@@ -170,8 +171,15 @@ def showEv : TEv → String
   | .data s => s!"D/{dots s}"
   | .special c s => s!"P/{codeOf c}/{dots s}"
 
-def trip (f : Fmt) (root : Node) : String :=
+/-- the re-parsing configuration of a case: `D` = the live default, `N` = `empty_element_tags=None`, `-` = the empty set,
+    else the names of the set (dotted code points, `;`-separated) -/
+def cfgOf (s : String) : PCfg :=
   let p := BS.Gen.C05.livePCfg
+  if s == "D" then p
+  else if s == "N" then { p with voidAll := true, voidTags := [] }
+  else { p with voidAll := false, voidTags := (splitNE ";" s).map undots }
+
+def trip (p : PCfg) (f : Fmt) (root : Node) : String :=
   let ds := root.kids
   let evs := emitRL f ds
   let nrm := normaliseL p f ds
@@ -193,7 +201,11 @@ def handle : List String → String
     | none => "no-such-formatter"
   | "trip" :: fl :: fm :: rest =>
     match findSpec fl fm with
-    | some s => withTree rest (trip (mkFmt s []))
+    | some s => withTree rest (trip BS.Gen.C05.livePCfg (mkFmt s []))
+    | none => "no-such-formatter"
+  | "tripc" :: cf :: fl :: fm :: rest =>
+    match findSpec fl fm with
+    | some s => withTree rest (trip (cfgOf cf) (mkFmt s []))
     | none => "no-such-formatter"
   | "top" :: ra :: ch :: arg :: tbl :: rest =>
     match parseArg arg (parseTbl tbl) with
